@@ -6,5 +6,5 @@ Require Import ExtrOcamlBasic ExtrOcamlString.
 Extraction Language OCaml.
 Extraction "../ocaml/c13/model.ml" can_be_ignored classify is_ignorable accept prop_obs timed_runs
   request_error_of_name request_error_name all_request_errors
-  btimed_runs baccept prop_trace mkConfig
+  btimed_runs baccept_guided prop_trace mkConfig
   Z.of_N. (* Z.of_N only so that the shared glue (ocaml/common/conv.ml) finds the type z *)
